@@ -1904,3 +1904,40 @@ package ice
 //@ // location array is what processDocument later appends ----
 //@ func (*interim).prepareDictsForDocument$1$1
 //@   ensures[C01] @every_occurrence_sized elc == old(elc) + 1
+//@
+//@ // ---- C02: the surviving cardinality of a merged term is counted, for every segment holding
+//@ // the term, against THAT segment's deletions and from that segment's postings of the term (the
+//@ // enumerator's match list and its values are parallel; dicts and drops are indexed by segment) ----
+//@ func (*PostingsList).read
+//@   ensures[C02] p.except == old(p.except)
+//@ func (*Dictionary).postingsListFromOffset
+//@   ensures[C02] @list_for_these_deletions result1 == nil ==> result0.except == except && result0.postingsOffset == postingsOffset
+//@ func prepareNewTerm
+//@   at call:(*Dictionary).postingsListFromOffset#0 lemma[C02] result1 == nil ==> result0.except == drops[idx] && result0.postingsOffset == lowItrVals[i] && result0.sb == dicts[idx].sb
+//@
+//@ // ---- C08: Contains answers exactly the FST's own membership test for the key (a key that is only
+//@ // a prefix of a term is not contained); a dictionary without terms contains nothing ----
+//@ func (*Dictionary).Contains
+//@   requires[C08] d != nil
+//@   ensures[C08] @membership_is_the_fsts d.fst != nil ==> result0 == fsthas(d.fst, contents(key), off(key), len(key))
+//@   ensures[C08] @empty_dictionary_contains_nothing d.fst == nil ==> !result0 && result1 == nil
+//@
+//@ // ---- C03: the merger works on exactly the segments and deletion bitmaps it was handed,
+//@ // position by position (a nil entry means "no deletions" for that segment only) ----
+//@ func Merge
+//@   ensures[C03] @inputs_taken_as_given result0 != nil && dyntype(result0) == typetag("*Merger") && cast(result0, "*Merger").segments == segments && cast(result0, "*Merger").drops == drops && cast(result0, "*Merger").mergeBufferSize == mergeBufferSize
+//@ func (*Merger).WriteTo
+//@   at call:merge#0 lemma[C03] m.segments == old(m.segments) && m.drops == old(m.drops)
+//@
+//@ // ---- C01: the norm stored with a posting is the one computed in this very iteration for the
+//@ // posting's own field (name and total length of THAT field in the document) ----
+//@ ghostvar nrmf int
+//@ ghostvar nrmv int
+//@ func (*interim).processDocument
+//@   at call:funcvalue#0 ghostset nrmf = fieldID
+//@   at store:interimFreqNorm.norm#0 lemma[C01] nrmf == fieldID
+//@
+//@ // ---- C14: the recycled builder has no state besides these fields; each is emptied, blanked or
+//@ // retained-as-capacity by reset() (see its contract), lastNumDocs/lastOutSize only size a buffer.
+//@ // A new field is new state that survives from one build to the next through the pool ----
+//@ structfields[C14] interim results chunkMode w FieldsMap FieldsInv FieldDocs FieldFreqs Dicts DictKeys IncludeDocValues Postings FreqNorms freqNormsBacking Locs locsBacking numTermsPerPostingsList numLocsPerPostingsList builder builderBuf metaBuf tmp0 tmp1 lastNumDocs lastOutSize normCalc
